@@ -180,9 +180,14 @@ def gen_case(draw, Lmax):
         axis.append(axis[-1] + g)
 
     def lab():
-        kind = draw(st.sampled_from(["none", "on", "on", "between", "before", "after"]))
+        kind = draw(st.sampled_from(["none", "on", "on", "between", "before", "after", "zero"]))
         if kind == "none":
             return None, kind
+        if kind == "zero":
+            # the label 0 itself: first step, inner step or off the axis (equidistant positions are avoided for 'nearest')
+            if 0 in axis or all(abs(a_ - 0) != abs(b_ - 0) for a_, b_ in zip(axis, axis[1:])):
+                return 0, kind
+            return axis[0], "on"
         if kind == "on":
             return draw(st.sampled_from(axis + ([0] if 0 in axis else []))), kind
         if kind == "before":
